@@ -1,6 +1,6 @@
 """C09 - worlds in a batch do not influence each other (R-WORLD)."""
 
-from ..rules import r_world
+from ..rules import r_batch, r_world
 from ..tables import world_tables
 from . import common
 
@@ -18,6 +18,9 @@ def run(db, res, tier):
   n, unknown = r_world.check_world_index(res, scope, tags)
   nw = r_world.check_tag_writers(res, all_lcs + scope, tags)
   ng = r_world.check_global_counters(res, all_lcs + scope)
+  # a batched Model field read at another world's entry makes a world depend on its batch position
+  nb, _ = r_batch.check_batch(res, scope, tags)
+  res.floor("batched reads in scope", nb, 400)
   res.floor("nworld-array accesses", n, 2000)
   res.floor("world-tag writers", nw, 8)
   res.floor("global counter writes", ng, 6)
